@@ -21,6 +21,8 @@ pub enum Op {
     Duplicate(u16),
     /// let time pass without answering
     Withhold,
+    /// the peer stays silent for 25 s (two and a half of the client's rate windows) with blocks outstanding
+    WithholdLong,
     Choke,
     /// choke, but answers to the requests already received are still sent afterwards (in flight)
     ChokeKeep,
@@ -57,6 +59,7 @@ fn strategy(tier: Tier) -> BoxedStrategy<Case> {
                 3 => any::<u8>().prop_map(Op::AnswerAll),
                 2 => any::<u16>().prop_map(Op::Duplicate),
                 1 => Just(Op::Withhold),
+                1 => Just(Op::WithholdLong),
                 1 => Just(Op::Choke),
                 1 => Just(Op::ChokeKeep),
                 2 => Just(Op::Unchoke),
@@ -87,6 +90,10 @@ struct Sim {
     epoch: Option<Epoch>,
     cmds_seen: usize,
     assignments_unused: usize,
+    /// which manager command produced each assignment not yet matched with requests
+    assign_kinds: std::collections::VecDeque<&'static str>,
+    /// the peer has choked the client since the current assignment's first request
+    choked_since_epoch: bool,
     model_complete: BTreeSet<u32>,
     answered: Vec<(u32, u32, u32)>,
     peer_chokes_client: bool,
@@ -107,6 +114,7 @@ impl Sim {
             if cr.addr == self.addr && matches!(cr.kind, "RecvUnchoke" | "RecvHave" | "PieceDone" | "PieceCancel") && cr.peer_piece_after.is_some() {
                 if cr.kind != "RecvHave" || cr.peer_piece_before.is_none() {
                     self.assignments_unused += 1;
+                    self.assign_kinds.push_back(cr.kind);
                 }
             }
         }
@@ -134,6 +142,22 @@ impl Sim {
                         return same_epoch;
                     }
                     self.assignments_unused -= 1;
+                    // an assignment the peer did not cause (no Unchoke after a Choke, no finished or cancelled piece)
+                    // in the middle of a fetch: the piece under way is left with a gap or its blocks are asked for again
+                    let kind = self.assign_kinds.pop_front().unwrap_or("?");
+                    if let Some(e) = &self.epoch {
+                        let til = wire::tiling(self.geo.piece_length(e.piece as usize));
+                        if kind == "RecvUnchoke" && !self.choked_since_epoch && !e.seen.is_empty() && e.delivered.len() < til.len() {
+                            let ep = e.piece;
+                            let (seen, delivered) = (e.seen.len(), e.delivered.len());
+                            self.fail(
+                                "piece-under-way-abandoned-or-requested-again",
+                                format!("step {} {}: Request({},{},{}) starts a new assignment although piece {} was under way ({} of {} blocks requested, {} delivered) and the peer never choked the client", self.step, what, p, b, l, ep, seen, til.len(), delivered),
+                            );
+                            return same_epoch;
+                        }
+                    }
+                    self.choked_since_epoch = false;
                     self.epoch = Some(Epoch { piece: *p, seen: BTreeSet::new(), delivered: BTreeSet::new() });
                 } else {
                     same_epoch += 1;
@@ -253,6 +277,8 @@ pub fn check(c: &Case) -> Outcome {
                 epoch: None,
                 cmds_seen: 0,
                 assignments_unused: 0,
+                assign_kinds: Default::default(),
+                choked_since_epoch: false,
                 model_complete: BTreeSet::new(),
                 answered: vec![],
                 peer_chokes_client: true,
@@ -315,9 +341,20 @@ pub fn check(c: &Case) -> Outcome {
                         w.advance_by(std::time::Duration::from_secs(3)).await;
                         sim.observe(w, "after withholding").await;
                     }
+                    Op::WithholdLong => {
+                        sim.classes.push("withhold");
+                        if !sim.view.outstanding.is_empty() {
+                            sim.classes.push("silent-for-25s-with-blocks-outstanding");
+                        }
+                        for _ in 0..5 {
+                            w.advance_by(std::time::Duration::from_secs(5)).await;
+                            sim.observe(w, "after 25 s of silence").await;
+                        }
+                    }
                     Op::Choke => {
                         w.send_frame(conn, &RFrame::Choke);
                         sim.peer_chokes_client = true;
+                        sim.choked_since_epoch = true;
                         // a choking peer drops the requests it has queued
                         sim.view.outstanding.clear();
                         sim.classes.push("choke");
@@ -326,6 +363,7 @@ pub fn check(c: &Case) -> Outcome {
                     Op::ChokeKeep => {
                         w.send_frame(conn, &RFrame::Choke);
                         sim.peer_chokes_client = true;
+                        sim.choked_since_epoch = true;
                         sim.classes.push("choke");
                         sim.classes.push("choke-with-blocks-in-flight");
                         sim.observe(w, "after choke").await;
